@@ -592,6 +592,7 @@ def load_known(pid=None):
             for e in json.load(open(p))['findings']: _KF[e['id']] = e
     return {k: v for k, v in _KF.items() if pid is None or v['property'] == pid}
 
+def fp_(t): return z3.fpBVToFP(t, FSORT[t.size()])
 def region_ns(res):
     ns = {k: getattr(z3, k) for k in ('ULT', 'ULE', 'UGT', 'UGE', 'And', 'Or', 'Not', 'If', 'Extract', 'BitVecVal', 'fpIsNaN', 'fpIsInf', 'fpLT', 'fpGT',
                                        'fpLEQ', 'fpGEQ', 'fpEQ', 'fpAbs', 'fpIsZero', 'fpIsSubnormal', 'fpIsNegative', 'FPVal', 'Float32', 'Float64', 'BoolVal', 'LShR', 'RealVal')}
@@ -601,8 +602,13 @@ def region_ns(res):
         W = x.size(); kk = z3.ZeroExt(W - k.size(), k) if k.size() < W else z3.Extract(W - 1, 0, k)
         return z3.Extract(0, 0, z3.LShR(x, kk)) == 1
     ns['bitat'] = bitat
-    def fp(t): return z3.fpBVToFP(t, FSORT[t.size()])
-    ns['fp'] = fp
+    def _ord(b):
+        w = b.size(); mag = z3.ZeroExt(3, z3.Extract(w - 2, 0, b)); return z3.If(z3.Extract(w - 1, w - 1, b) == 1, -mag, mag)
+    def ulpdist_le(x, y, m):
+        d = _ord(x) - _ord(y); d = z3.If(d < 0, -d, d); return d <= z3.SignExt(x.size() + 2 - m.size(), m)
+    ns['ulpdist_le'] = ulpdist_le
+    ns['absdiff_eq'] = lambda x, y, e: z3.fpEQ(z3.fpAbs(z3.fpSub(z3.RNE(), fp_(x), fp_(y))), fp_(e))
+    ns['fp'] = fp_
     ns['fpv'] = lambda x, w=32: z3.FPVal(x, FSORT[w])
     ns['sge'] = lambda x, y: x >= y
     ns['slt'] = lambda x, y: x < y
